@@ -23,17 +23,25 @@ THEOREMS = [
 ]
 RULE = ("operations on the real internal/aes_ige code: doAES256IGEencrypt/decrypt through the verif hooks for every "
         "block count 1..64 (thorough 1..1024) with fresh random key/IV each (degenerate all-zero / repeated-block "
-        "data and special IVs included), the caller's input and pre-filled output buffers observed after the call, "
+        "data and special IVs included) and long inputs: 96..2049 blocks around every power of two and its multiples "
+        "(127/128/129, 255/256/257, 511/512/513, 767..769, 1023..1025, 1536, 2047..2049; thorough also 4095..4097, "
+        "8191..8193) plus random counts up to 4096, data given as short tokens (r<n>:<seed> LCG bytes, p<n>), "
+        "the caller's input and pre-filled output buffers observed after the call, "
         "refused lengths 0,1,15,17,31,...; Encrypt/Decrypt for every residue of len mod 16 at four (thorough six) "
-        "magnitudes plus the auth-key length guard; generateTempKeys for nonces with 0/1/2 leading zero bytes (both, "
+        "magnitudes, long messages (2047..32769 bytes around the multiples of 4096, random up to 64 KiB) plus the "
+        "auth-key length guard; generateTempKeys for nonces with 0/1/2 leading zero bytes (both, "
         "all nine combinations), tiny and oversized values, the repository's fixture; EncryptMessageWithTempKeys + "
         "DecryptMessageWithTempKeys for every payload length 0..512 (every residue of (20+len) mod 16) with the "
         "padding made reproducible by seeding math/rand; a conformant peer's messages (independent crypto/aes + "
         "crypto/sha1 implementation written from the definitions) for every answer length 0..512, every padding "
-        "amount 0..15 under every leading-zero combination; the unpadded hook and garbage ciphertexts. Every "
+        "amount 0..15 under every leading-zero combination; long payloads (4-32 KiB) for both directions of the "
+        "key-exchange wrapper and the unpadded hook (256..2048 blocks); the unpadded hook and garbage ciphertexts. Every "
         "argument of every operation lives in long-lived caller memory (byte slots, big.Ints) refilled in place: each "
         "operation runs first with the complement of its arguments, then with its own (reported) ones, and the "
-        "arguments are overwritten after the call returned (the result must not move). "
+        "arguments are overwritten after the call returned (the result must not move). After every operation has "
+        "returned and its buffers were compared, two garbage collections are forced and the finalizer goroutine is "
+        "waited for (sentinel finalizers), then every caller-owned buffer, integer and result is compared again "
+        "(caller-buffer-changed-after-gc). "
         "distinct = distinct operation lines; each is compared with the Lean register model (Lean AES-256/SHA-1 "
         "plugged in) and judged by the independent reference implementation")
 
